@@ -20,8 +20,12 @@ Ghost file sections (contracts/ghost/<unit>.ghost), all keyed by item label:
                                       and replaced by the call name(args); following lines (up to
                                       the next @@) are the *assumed* contract of the hole
   @@ <label> bodyend <k>              lines inserted at the end of the body of loop k
-  loop anchors: <k> may be written [n|<header line text>] (n-th loop with that header), ?[..] = optional section;
-                                      `it__@` in the body stands for that loop's ordinal
+  loop anchors: <k> may be written [n|<header line text>] (n-th loop with that header; n = * : every such loop),
+                                      [n|<header>|in:A>>B] = only loops inside the block opened on the first line A (and, inside
+                                      it, on the first line B), ?[..] = optional section; ` as=<name>` after the ] names the loop's
+                                      iterator (default it__<ordinal>); in the section body `it__@` stands for that name and `inc__@` for the variable its body increments (`v += 1;`)
+  ?subst / ?before / ?after           optional forms: dropped (and listed under dropped_optional_sections) when the anchor is gone;
+                                      subst patterns may list alternative spellings `a ||| b` of the same expression
   @@ <label> attr                     lines inserted before the item (e.g. #[verifier::...])
 Every inserted line is tagged with a trailing //@ so the erasure check can remove it again.
 """
@@ -219,39 +223,110 @@ def apply_ghost(text, label, ghost, report):
     # has that text; a leading `?` makes the section optional (dropped when the loop is gone, so that removing a loop does
     # not turn every later anchor into a lost one).  `it__@` in the section body stands for the loop's ordinal.
     LOOP_KINDS = ("desugar", "loop", "body", "bodyend", "afterloop", "beforeloop", "loopattr", "exhausted")
+    LOOP_NAMES = {}
     if any(s_[0] in LOOP_KINDS and s_[1].lstrip("?").startswith("[") for s_ in secs):
-        heads = {}
+        heads, hpos = {}, {}
         for mm_ in re.finditer(r"/\*@L(\d+)\*/", text):
             le = text.find("\n", mm_.end())
             hdr = text[mm_.end():le if le >= 0 else len(text)].strip()
             heads[int(mm_.group(1))] = hdr
+            hpos[int(mm_.group(1))] = mm_.start()
+
+        def ctx_range(chain):
+            """[n|header|in:A>B]: the brace block opened on the first line with text A, inside it the one opened on the
+            first line with text B, ...; returns the (start, end) offsets in `text`, or None when a step is gone."""
+            lo, hi = 0, len(text)
+            for step in chain:
+                found = None
+                pos = lo
+                while pos < hi:
+                    le_ = text.find("\n", pos)
+                    le_ = hi if le_ < 0 or le_ > hi else le_
+                    if re.sub(r"/\*@L\d+\*/", "", text[pos:le_]).strip() == step.strip():
+                        found = (pos, le_)
+                        break
+                    pos = le_ + 1
+                if found is None:
+                    return None
+                msk_ = rustlex.mask(text)
+                ob_ = msk_.rfind("{", found[0], found[1] + 1)
+                if ob_ < 0:
+                    return None
+                lo, hi = ob_, rustlex.match_brace(msk_, ob_)
+            return lo, hi
+
+        def inc_var(k_):
+            """`inc__@`: the variable the loop's body increments (first `<ident> += 1;` statement of the body)."""
+            i_ = hpos[k_]
+            msk_ = rustlex.mask(text)
+            ob_ = msk_.find("{", text.find("\n", i_) - 2)
+            m_ = re.search(r"\b(\w+) \+= 1;", text[ob_:rustlex.match_brace(msk_, ob_)])
+            return m_.group(1) if m_ else None
+
         resolved = []
+        pending = []
         for kind, arg, body in secs:
             a_ = arg.lstrip()
             if kind in LOOP_KINDS and a_.lstrip("?").startswith("["):
                 optional = a_.startswith("?")
                 a_ = a_.lstrip("?")
                 close = a_.index("]")
-                n_, hdr_ = a_[1:close].split("|", 1)
+                mname = re.search(r"\sas=(\w+)", a_[close + 1:])
+                if mname:
+                    a_ = a_[:close + 1] + a_[close + 1:].replace(mname.group(0), "")
+                fields_ = a_[1:close].split("|")
+                n_, hdr_ = fields_[0], fields_[1]
                 ks = [k for k in sorted(heads) if heads[k] == hdr_.strip()]
-                if len(ks) < int(n_):
+                if len(fields_) > 2 and fields_[2].startswith("in:"):
+                    rng = ctx_range(fields_[2][3:].split(">>"))
+                    ks = [k for k in ks if rng is not None and rng[0] <= hpos[k] < rng[1]]
+                if n_.strip() == "*":
+                    picked = ks
+                else:
+                    picked = ks[int(n_) - 1:int(n_)]
+                if not picked:
                     if optional:
                         report.setdefault("dropped_optional_sections", []).append("%s %s %s" % (label, kind, arg))
                         continue
                     raise Undecided("lost anchor in %s: loop %s" % (label, a_[:close + 1]))
-                k_ = ks[int(n_) - 1]
-                resolved.append((kind, str(k_) + a_[close + 1:], [l.replace("it__@", "it__%d" % k_) for l in body]))
+                for k_ in picked:
+                    if mname:
+                        LOOP_NAMES[k_] = mname.group(1)
+                    lines_ = list(body)
+                    if any("inc__@" in l for l in lines_):
+                        v_ = inc_var(k_)
+                        if v_ is None:
+                            raise Undecided("lost anchor in %s: loop %s increments nothing (inc__@)" % (label, a_[:close + 1]))
+                        lines_ = [l.replace("inc__@", v_) for l in lines_]
+                    pending.append(len(resolved))
+                    resolved.append((kind, str(k_) + a_[close + 1:], lines_))
             else:
                 resolved.append((kind, arg, body))
+        # `it__@` = the iterator of that loop: it__<ordinal>, or the stable name given by `as=<name>` on any section of the loop
+        for i_ in pending:
+            kind, arg, body = resolved[i_]
+            k_ = int(arg.split()[0])
+            resolved[i_] = (kind, arg, [l.replace("it__@", LOOP_NAMES.get(k_, "it__%d" % k_)) for l in body])
         secs = resolved
     # ---------------- phase A
     for kind, arg, body in secs:
+        optional_ = kind.startswith("?")   # `?subst`, `?before`, `?after`: dropped (and reported) when the anchor is not there
+        kind = kind.lstrip("?")
         if kind in ("subst", "norm"):
             n, rest = arg.split(" ", 1)
             old, new = [x.strip() for x in rest.split("==>")]
-            # whitespace-flexible literal match (so a pattern may span re-indented lines)
-            rx = re.compile(r"\s+".join(re.escape(w) for w in old.split()))
-            hits = list(rx.finditer(text))
+            # whitespace-flexible literal match (so a pattern may span re-indented lines); `a ||| b`: alternative spellings
+            # of the same expression, each of which the hole's assumed contract describes equally (first one present is used)
+            hits = []
+            for alt_ in old.split("|||"):
+                rx = re.compile(r"\s+".join(re.escape(w) for w in alt_.split()))
+                hits = list(rx.finditer(text))
+                if hits:
+                    old = alt_.strip()
+                    break
+            if optional_ and (not hits or (n != "all" and len(hits) < int(n))):
+                report.setdefault("dropped_optional_sections", []).append("%s %s %s" % (label, kind, arg[:80]))
+                continue
             if n == "all":
                 if not hits:
                     raise Undecided("lost anchor in %s: subst `%s`" % (label, old))
@@ -399,7 +474,7 @@ def apply_ghost(text, label, ghost, report):
             if newit is None:
                 raise Undecided("loop #%d in %s iterates `%s`: no specified iterator wrapper for it" % (k, label, m.group(2).strip()))
             cb = rustlex.match_brace(rustlex.mask(text), brace_i)
-            itn = "it__%d" % k
+            itn = LOOP_NAMES.get(k, "it__%d" % k)
             mk = "/*@L%d*/" % k
             if newit.startswith("@"):
                 head = "{ %sloop { match %s { None => { break }, Some(%s) => {" % (mk, newit[1:], m.group(1))
@@ -466,7 +541,7 @@ def apply_ghost(text, label, ghost, report):
                 at = brace_i + (m.end() if m else 1)
             else:
                 at = rustlex.match_brace(rustlex.mask(text), brace_i) + 1
-                if re.match(r" \}", text[at:]) and "let mut it__%d " % k in text[:kw_i][-200:]:
+                if re.match(r" \}", text[at:]) and "let mut %s " % LOOP_NAMES.get(k, "it__%d" % k) in text[:kw_i][-200:]:
                     at += 2  # the block that wraps a desugared loop
             ls = text.rfind("\n", 0, kw_i) + 1
             ind = re.match(r"[ \t]*", text[ls:]).group(0) + ("    " if kind == "body" else "")
@@ -510,16 +585,24 @@ def apply_ghost(text, label, ghost, report):
             bo = body_or_semi(text)
             text = text[:bo].rstrip() + "\n" + "\n".join(tag(body)) + "\n" + text[bo:]
     for kind, arg, body in secs:
+        optional_ = kind.startswith("?")
+        kind = kind.lstrip("?")
         if kind in ("before", "after"):
             n, anchor = arg.split(" ", 1)
             lines = text.split("\n")
-            if n == "all":
-                # every line with that text (at least one): inserted bottom-up so indices stay valid
-                hits = [k for k, l in enumerate(lines) if l.strip() == anchor.strip() and not l.endswith(TAG)]
-                if not hits:
-                    raise Undecided("lost anchor in %s: `%s`" % (label, anchor.strip()))
-            else:
-                hits = [find_line(lines, anchor.strip(), int(n), label)]
+            try:
+                if n == "all":
+                    # every line with that text (at least one): inserted bottom-up so indices stay valid
+                    hits = [k for k, l in enumerate(lines) if l.strip() == anchor.strip() and not l.endswith(TAG)]
+                    if not hits:
+                        raise Undecided("lost anchor in %s: `%s`" % (label, anchor.strip()))
+                else:
+                    hits = [find_line(lines, anchor.strip(), int(n), label)]
+            except Undecided:
+                if optional_:
+                    report.setdefault("dropped_optional_sections", []).append("%s %s %s" % (label, kind, arg[:80]))
+                    continue
+                raise
             for i in reversed(hits):
                 ind = re.match(r"\s*", lines[i]).group(0)
                 new = tag([ind + l for l in body])
@@ -715,6 +798,15 @@ def build_unit(unit, outdir, ghost_override=None, variant=None):
                     if first.startswith("after:"):
                         # structural start: the line following the one with that text (e.g. a loop header)
                         i0 = next(k for k, l in enumerate(wl) if l.strip() == first[6:].strip()) + 1
+                    elif first.startswith("afterblock:"):
+                        # structural start: the line following the end of the brace block opened on the line with that text
+                        bl0 = next(k for k, l in enumerate(wl) if l.strip() == first[11:].strip())
+                        off0 = sum(len(l) + 1 for l in wl[:bl0])
+                        msk0 = rustlex.mask(whole)
+                        ob0 = msk0.rfind("{", off0, off0 + len(wl[bl0]) + 1)
+                        if ob0 < 0:
+                            raise StopIteration
+                        i0 = whole.count("\n", 0, rustlex.match_brace(msk0, ob0)) + 1
                     elif re.match(r"nth=(\d+):", first):
                         nn = int(re.match(r"nth=(\d+):", first).group(1))
                         ftxt = first.split(":", 1)[1].strip()
